@@ -39,8 +39,8 @@ theorem edge_eq (h : Relisting ds ds' σ τ) {i j : Nat} (hi : i < ds.length) (h
     by_cases hij : i = j
     · subst hij; simp
     · have : σ i ≠ σ j := fun e => hij (by rw [← h.τσ i hi, ← h.τσ j hj, e])
-      simp [hij, this]
-  cases ds[σ i]? <;> cases ds[σ j]? <;> simp [hne]
+      rw [(bne_iff_ne).2 hij, (bne_iff_ne).2 this]
+  cases ds[σ i]? <;> cases ds[σ j]? <;> first | rfl | (simp only [hne])
 
 theorem adj_map (h : Relisting ds ds' σ τ) {i j : Nat} (hij : Adj (edge ds') i j) :
     Adj (edge ds) (σ i) (σ j) := by
@@ -52,7 +52,7 @@ theorem adj_map (h : Relisting ds ds' σ τ) {i j : Nat} (hij : Adj (edge ds') i
 
 theorem rtg_map (h : Relisting ds ds' σ τ) {i j : Nat} (hij : ReflTransGen (Adj (edge ds')) i j) :
     ReflTransGen (Adj (edge ds)) (σ i) (σ j) :=
-  ReflTransGen.lift σ (fun _ _ hab => h.adj_map hab) hij
+  ReflTransGen.lift σ (fun _ _ hab => h.adj_map hab) i j hij
 
 theorem rtg_iff (h : Relisting ds ds' σ τ) {i j : Nat} (hi : i < ds.length) (hj : j < ds.length) :
     ReflTransGen (Adj (edge ds')) i j ↔ ReflTransGen (Adj (edge ds)) (σ i) (σ j) := by
